@@ -31,7 +31,8 @@
                                        (`EntrySwapped`; the delimiter is not one of them), displaced tag < 5000 and not a top-level
                                        field of its section, unknown fields not tolerated ⇒ reject with reason 1, 16 or 2 (⊆ the
                                        spec's {15,14,16,1,2}).  Nested groups and swaps involving the delimiter: monitor only
-    header/body/trailer order          C15_defect_section_order, C15_defect_section_order_pipeline
+    header/body/trailer order          C15_defect_section_order, C15_defect_section_order_pipeline, C15_defect_section_order_behind_trailer,
+                                       C15_orig_accepts_body_behind_trailer (witness for the repaired defect)
     settings that relax                C15_relaxed_reject_invalid, C15_relaxed_content, C15_relaxed_not_in_dictionary,
                                        C15_relaxed_not_defined_for_type
     generic                            C15_pipeline_to_walk (stages before the walk), C15_defect_walk_first (first failing top-level field)
@@ -344,6 +345,30 @@ theorem C15_defect_section_order (m : PMsg) (hv : Bool) (h b₁ rest : List TV) 
     simpa using this
   simp only [validateFieldContent, Bool.not_true, Bool.and_false, Bool.false_eq_true, if_false, e]
   exact contentLoop_section_order hv h b₁ rest x hne hval' hh hb hx
+
+
+/-- a body field behind a trailer field is named: reason 14, that tag (CheckFieldsOutOfOrder on) — also when no body field
+    precedes the trailer field (the case the original loop let through, see the witness below) -/
+theorem C15_defect_section_order_behind_trailer (m : PMsg) (hv : Bool) (h b t rest : List TV) (t₁ x : TV)
+    (hfs : m.fields = h ++ b ++ (t₁ :: t) ++ [x] ++ rest)
+    (hh : ∀ f ∈ h, isHeaderTag f.tag = true)
+    (hb : ∀ f ∈ b, isHeaderTag f.tag = false ∧ isTrailerTag f.tag = false)
+    (ht₁ : isTrailerTag t₁.tag = true) (ht : ∀ f ∈ t, isTrailerTag f.tag = true)
+    (hx : isHeaderTag x.tag = false ∧ isTrailerTag x.tag = false) (hval : AllValues (h ++ b ++ (t₁ :: t) ++ [x])) :
+    validateFieldContent m hv true = .error (.reject ⟨14, some x.tag⟩) := by
+  have e : m.fields = h ++ (b ++ (t₁ :: t ++ x :: rest)) := by rw [hfs]; simp
+  have hval' : ValuesOK hv (h ++ (b ++ (t₁ :: t ++ [x]))) := by
+    have := hval.valuesOK hv
+    simpa using this
+  simp only [validateFieldContent, Bool.not_true, Bool.and_false, Bool.false_eq_true, if_false, e]
+  exact contentLoop_behind_trailer hv h b t rest t₁ x hval' hh hb ht₁ ht hx
+
+/-- the loop before the `fix:` accepted `8 9 35 | 89 | 36 | 10`: a trailer field directly behind the header did not
+    start the trailer, so the body field behind it went unnoticed -/
+theorem C15_orig_accepts_body_behind_trailer :
+    (fieldContentLoopOrig true true [⟨8, [70]⟩, ⟨9, [49]⟩, ⟨35, [52]⟩, ⟨89, [50]⟩, ⟨36, [51]⟩, ⟨10, [48]⟩] true false).toBool = true
+    ∧ (fieldContentLoop true true [⟨8, [70]⟩, ⟨9, [49]⟩, ⟨35, [52]⟩, ⟨89, [50]⟩, ⟨36, [51]⟩, ⟨10, [48]⟩] true false).toBool = false := by
+  decide
 
 /-- … and by the whole pipeline when CheckFieldsOutOfOrder is on, RejectInvalidMessage on or off -/
 theorem C15_defect_section_order_pipeline (tr app : VDict) (s : Settings) (m : PMsg) (mt : Bytes) (hd b t : MDef)
